@@ -22,6 +22,11 @@ fn main() {
 			"C07" => checks::c07::replay(&name, &actions),
 			"C09" => checks::c09::replay(&name, &actions),
 			"C10" => checks::c10::replay(&name, &actions),
+			"C04" => checks::c04::replay_case(v["replay"]["case"].as_str().unwrap_or("")),
+			"C06" => checks::c06::replay_case(v["replay"]["case"].as_str().unwrap_or("")),
+			"C08" => checks::c08::replay_case(v["replay"]["case"].as_str().unwrap_or("")),
+			"C11" => checks::c11::replay_script(v["replay"]["script"].as_str().unwrap_or("")),
+			"C12" => checks::c12::replay(&v["replay"], &name, &actions),
 			_ => cli::die("replay: unknown property"),
 		};
 		std::process::exit(code);
